@@ -45,14 +45,24 @@ class Driver:
         self.live_at = {}  # g -> set(ids)
         self.sent = []  # dicts: serial, g, receiver, delay(Fraction|None)
         self.handled = []  # (g, agent_id, serial) in handling order
+        self.handled_uid = {}  # serial -> uid of the handling agent instance
         self.serial = 0
         self.plan = {}
         self.flags = set()
 
+    def uid_of(self, agent):
+        """identity of an agent *instance* (ids must never be re-used, but the reference does not rely on that)"""
+        u = agent.__dict__.get("_vf_uid")
+        if u is None:
+            self.uid_counter = getattr(self, "uid_counter", 0) + 1
+            u = self.uid_counter
+            agent.__dict__["_vf_uid"] = u
+        return u
+
     # called by the instrumented model --------------------------------
     def begin(self, model):
         g = self.g
-        self.live_at[g] = set(a.id for a in model.agents)
+        self.live_at[g] = {a.id: self.uid_of(a) for a in model.agents}
         self.plan = {}
         if g < len(self.script):
             live_ids = [a.id for a in model.agents]
@@ -75,7 +85,8 @@ class Driver:
                 def factory(rid, serials=serials):
                     self.serial += 1
                     serials[rid] = self.serial
-                    self.sent.append({"serial": self.serial, "g": self.g, "receiver": rid, "delay": None, "sender": agent.id})
+                    self.sent.append({"serial": self.serial, "g": self.g, "receiver": rid, "delay": None, "sender": agent.id,
+                                      "receiver_uid": self.live_at[self.g].get(rid)})
                     return Event("ev", agent.id, rid, data=self.serial)
                 model.broadcast_event(ty, factory)
                 self.flags.add("broadcast")
@@ -87,7 +98,7 @@ class Driver:
             self.serial += 1
             delay = s.get("delay")
             rec = {"serial": self.serial, "g": self.g, "receiver": rid, "delay": None if delay is None else Fraction(delay),
-                   "sender": agent.id}
+                   "sender": agent.id, "receiver_uid": self.live_at[self.g].get(rid)}
             self.sent.append(rec)
             if delay is None:
                 model.enqueue_event(Event("ev", agent.id, rid, data=self.serial))
@@ -99,6 +110,7 @@ class Driver:
 
     def on_event(self, agent, event):
         self.handled.append((self.g, agent.id, event.data))
+        self.handled_uid[event.data] = self.uid_of(agent)
 
     def end(self, model):
         g = self.g
@@ -163,7 +175,7 @@ def expected(drv, nsteps):
     for e in drv.sent:
         wait = 0 if e["delay"] is None else math.ceil(e["delay"] / dt)
         h = e["g"] + 1 + wait
-        if h < nsteps and e["receiver"] in drv.live_at.get(h, ()):
+        if h < nsteps and e["receiver_uid"] is not None and drv.live_at.get(h, {}).get(e["receiver"]) == e["receiver_uid"]:
             exp.append((h, e["receiver"], e["serial"]))
     return exp
 
@@ -209,6 +221,10 @@ def check_case(case):
             vs.append(Violation("duplicate", "event #%d (to id %s) handled twice: %r and %r" % (s, e["receiver"], seen[s], (g, aid))))
             continue
         seen[s] = (g, aid)
+        if aid == e["receiver"] and e["receiver_uid"] is not None and drv.handled_uid.get(s) != e["receiver_uid"]:
+            vs.append(Violation("misrouted:id-reused", "event #%d was addressed to id %d (an agent that has since been removed); it was handled at step %d by a "
+                                "different agent that was given the same id" % (s, e["receiver"], g)))
+            continue
         if aid != e["receiver"]:
             ctx = "after-delete" if ("delete" in drv.flags or "reconfigure" in drv.flags) else "no-delete"
             vs.append(Violation("misrouted:" + ctx, "event #%d addressed to id %d was handled by id %d at step %d (live then: %r)"
